@@ -62,7 +62,13 @@ Inductive op :=
      (field_write, field_lock, key_value_entry_set/remove/lock) *)
   | OCell (k : cell_id) (o : sysop)
   | OSetOwner (rule : N)
-  | OLockOwner.
+  | OLockOwner
+  (* RoleAssignment.set on a reserved role key (_owner_ / _self_): resolve_update_role_method_permission
+     returns the empty role list, so nobody is admitted: the owner role cannot be reached this way *)
+  | OReservedRolePath (rule : N)
+  (* a change of the auth configuration (e.g. set_role(Metadata, "metadata_setter", allow_all) by the
+     owner): it changes who is admitted later (the `auth` inputs), never a substate modelled here *)
+  | OAuthConfig.
 
 (* `auth`: did the auth module admit the caller for this method (role check against the caller's
    badges)? For blueprint-internal accesses it is true. `owner_auth`: does the caller satisfy the
@@ -92,6 +98,8 @@ Definition step (s : state) (c : caller) (o : op) : state * outcome :=
       if negb (owner_update_permitted (s_owner s) c) then (s, Fail EUnauthorized)
       else if o_locked (s_owner s) then (s, Fail ELocked)
       else (set_owner s {| o_rule := o_rule (s_owner s); o_updater := UNone; o_locked := true |}, Ok)
+  | OReservedRolePath _ => (s, Fail EUnauthorized)
+  | OAuthConfig => if auth c then (s, Ok) else (s, Fail EUnauthorized)
   end.
 
 Fixpoint run (s : state) (evs : list (caller * op)) : list (state * (caller * op) * state * outcome) :=
